@@ -155,10 +155,13 @@ def gen_args(rng, fn, pre, well_typed, pool=None, keypool=None):
             return [[typeref(rng) for _ in range(rng.randint(0 if not well_typed else 1, 3))]], {}
         if well_typed or rng.random() < 0.7:
             if fn in ("in_range", "not_in_range"):
-                return [rng.choice(SMALL_INTS), rng.choice(SMALL_INTS)], {}
+                return [typeref(rng), typeref(rng)], {}
             if fn == "equal_to_approx":
+                return [typeref(rng)] + ([typeref(rng)] if rng.random() < 0.3 else []), {}
+            if fn in ("keys_contain_N_of", "keys_contain_at_least_N_of", "keys_contain_at_most_N_of"):
+                return [typeref(rng), typeref(rng)], {}
+            if M.SIGS[fn][0] == "single":
                 return [typeref(rng)], {}
-            return [typeref(rng)], {}
     if fn in ("equal_to", "not_equal_to"):
         return [json_arg(rng, pool)], {}
     if fn in ("less_than", "greater_than", "less_than_or_equal_to", "greater_than_or_equal_to"):
